@@ -3,11 +3,19 @@ C19 — driver: replays an implementation trace through the model (correspondenc
 
 cfg:  n=<instances> keys=<distinct keys>      instance i uses key "k{i % keys}", model id "id{i}"
 ops:  ft <ms> | acquire <i> | release <i> | setexpire <i> <seconds> | ids
+      race <i> <j> …      concurrent Acquire calls of distinct instances (real goroutines)
+      down | up           miniredis answers every command with an error / normally again
 obs:  <true|false|ok|err>  then the store as seen directly in miniredis, one token per key:
       k<j>=-  (absent)   or   k<j>=<owner>:<pttl ms>   (owner printed as id<i> of the instance whose id it is)
-      ids => distinct len=<n>  |  dup
+      race … => won=<i,j,…|-> <store>       ids => distinct len=<n>  |  dup
+
+A race is explained as *some* order of the atomic script runs: the observed winners first, then the
+others (if any order explains the outcome, this one does — theorems concurrent_acquires_*).
 After a disagreement model and spec are re-synchronised to the observed store, so that every reported
 line is an independent one-step disagreement (and shrinks well).
+Three monitors run on the implementation's observations: results against the lease table (`Spec.explain`),
+the store against the lease table, and — independent of any store reading — the exclusivity of the
+callers' beliefs (`Spec.Belief`, fed with the implementation's results only).
 -/
 import GoZero.Base.Trace
 import GoZero.C19.Spec
@@ -17,15 +25,27 @@ open GoZero
 
 inductive DOp where
   | op (o : Op)
+  | race (js : List Nat)
   | ids
+  | down
+  | up
   deriving Repr
+
+def parseInst (n : Nat) (s : String) : Option Nat := do
+  let i ← s.toNat?
+  if i < n then pure i else none
 
 def parseOp (n : Nat) : List String → Option DOp
   | ["ft", ms] => do pure (.op (.ft (← ms.toNat?)))
-  | ["acquire", i] => do let i ← i.toNat?; if i < n then pure (.op (.acquire i)) else none
-  | ["release", i] => do let i ← i.toNat?; if i < n then pure (.op (.release i)) else none
-  | ["setexpire", i, s] => do let i ← i.toNat?; if i < n then pure (.op (.setExpire i (← s.toInt?))) else none
+  | ["acquire", i] => do pure (.op (.acquire (← parseInst n i)))
+  | ["release", i] => do pure (.op (.release (← parseInst n i)))
+  | ["setexpire", i, s] => do pure (.op (.setExpire (← parseInst n i) (← s.toInt?)))
   | ["ids"] => some .ids
+  | ["down"] => some .down
+  | ["up"] => some .up
+  | "race" :: js => do
+    let js ← js.mapM (parseInst n)
+    if js.length ≥ 2 ∧ js.eraseDups.length = js.length then pure (.race js) else none
   | _ => none
 
 def mkCfg (nkeys : Nat) (i : Nat) : LockCfg := { key := s!"k{i % nkeys}", id := s!"id{i}" }
@@ -98,9 +118,101 @@ def resTok : Op → Bool → String
   | _, b => if b then "true" else "false"
 
 structure DSt where
-  st  : St
-  sp  : Spec.ASt
-  won : List Nat          -- instances that acquired successfully at least once (coverage only)
+  st   : St
+  sp   : Spec.ASt
+  bel  : Spec.Belief := Spec.Belief.none   -- beliefs from the implementation's results
+  won  : List Nat := []   -- instances that acquired successfully at least once (coverage only)
+  down : Bool := false
+
+structure Ctx where
+  n     : Nat
+  nkeys : Nat
+  cfg   : Nat → LockCfg
+  keys  : List String
+  sec   : Nat
+  line  : Nat
+  opTxt : String
+  impl  : String
+
+/-- another instance on `i`'s key that believes (by the implementation's own answers) to hold it now -/
+def otherBeliever (c : Ctx) (bel : Spec.Belief) (now : Nat) (i : Nat) : Option Nat :=
+  (List.range c.n).find? fun j => j ≠ i ∧ (c.cfg j).key = (c.cfg i).key ∧ Spec.believes bel now j
+
+/-- runs a sequence of operations that the implementation executed between two store observations:
+per operation the implementation's result (`none` = the call failed with an error: nothing may change),
+then the observed store. -/
+def checkOps (c : Ctx) (r : Report) (d : DSt) (ops : List (Op × Option Bool)) (dump : List String)
+    (modelHead : List Bool → String) : Report × DSt := Id.run do
+  let mut r := r
+  let mut st := d.st
+  let mut sp := d.sp
+  let mut bel := d.bel
+  let mut won := d.won
+  let mut mres : List Bool := []
+  let mut flagged := false
+  for (op, implB) in ops do
+    match implB with
+    | none => r := r.addCover "call-failed-with-error"
+    | some b =>
+      for br in branchOf c.cfg st won op do r := r.addCover br
+      let (st', m) := step c.cfg st op
+      mres := mres ++ [m]
+      -- monitor 1: the result, in the property's words
+      match Spec.explain c.cfg sp op b with
+      | some msg =>
+        r := r.violation c.sec c.line s!"{msg} op=[{c.opTxt}] impl=[{c.impl}]"
+        flagged := true
+      | none => pure ()
+      -- monitor 3: beliefs (results and clock only)
+      bel := bel.step sp.now sp.secs op b
+      match op with
+      | .acquire i =>
+        if b then
+          match otherBeliever c bel sp.now i with
+          | some j =>
+            if !flagged then
+              r := r.violation c.sec c.line s!"two holders: instance {i} was granted {(c.cfg i).key} while instance {j} still holds an unexpired lease it was granted earlier op=[{c.opTxt}] impl=[{c.impl}]"
+              flagged := true
+          | none => pure ()
+          if !won.contains i then won := i :: won
+      | _ => pure ()
+      sp := (Spec.step c.cfg sp op).1
+      st := st'
+  -- correspondence: results + store
+  let model := joinSp [modelHead mres, modelDump st c.keys]
+  let pd := parseDump dump
+  if model ≠ c.impl then
+    r := r.mismatch c.sec c.line model c.impl
+    match pd with
+    | some pd => st := { st with store := resyncStore st.store.now pd }
+    | none => pure ()
+  -- monitor 2: the store
+  let want := specDump sp c.keys
+  if want ≠ joinSp dump then
+    if !flagged then
+      let what :=
+        match ops with
+        | [(.acquire _, some true)] => "lease after a successful Acquire is not seconds*1000+500 ms for this holder"
+        | [(.acquire _, some false)] => "a refused Acquire changed the lock"
+        | [(.release _, some true)] => "Release by the holder did not free exactly its key"
+        | [(.release _, some false)] => "a Release that reported false changed the lock (late or foreign release must be harmless)"
+        | [(.ft _, _)] => "lease did not run down with the clock"
+        | [(_, none)] => "a call that failed with an error changed the lock"
+        | _ => "store after the operation is not what the lease table says"
+      r := r.violation c.sec c.line s!"{what}: spec=[{want}] impl=[{joinSp dump}] op=[{c.opTxt}]"
+    match pd with
+    | some pd => sp := resyncSpec sp pd
+    | none => pure ()
+  return (r, { d with st := st, sp := sp, bel := bel, won := won })
+
+def parseWon (n : Nat) (tok : String) : Option (List Nat) :=
+  match tok.splitOn "=" with
+  | ["won", "-"] => some []
+  | ["won", l] => (l.splitOn ",").mapM (parseInst n)
+  | _ => none
+
+def wonTok (l : List Nat) : String :=
+  if l.isEmpty then "won=-" else "won=" ++ ",".intercalate ((sortNat l).map toString)
 
 def runSection (r : Report) (s : Section) : Report := Id.run do
   let n := kvNat s.cfg "n" 0
@@ -110,71 +222,82 @@ def runSection (r : Report) (s : Section) : Report := Id.run do
     return r.mismatch s.idx 0 "bad-cfg" (joinSp s.cfg)
   let cfg := mkCfg nkeys
   let keys := keyNames nkeys
-  let mut d : DSt := { st := St.init, sp := Spec.ASt.init, won := [] }
+  let mut d : DSt := { st := St.init, sp := Spec.ASt.init }
   for l in s.lines do
+    let impl := joinSp l.obs
+    let c : Ctx := { n := n, nkeys := nkeys, cfg := cfg, keys := keys, sec := s.idx, line := l.idx,
+                     opTxt := joinSp l.op, impl := impl }
     match parseOp n l.op with
     | none => r := r.mismatch s.idx l.idx "bad-op" (joinSp l.op)
     | some .ids =>
       r := { r with ops := r.ops + 1 }
       r := r.addCover "ids"
-      let impl := joinSp l.obs
       if impl ≠ "distinct len=16" then
         r := r.mismatch s.idx l.idx "distinct len=16" impl
         if impl = "dup" then
           r := r.violation s.idx l.idx "two RedisLock instances got the same id: they can hold the key at the same time"
+    | some .down =>
+      r := { r with ops := r.ops + 1 }
+      r := r.addCover "down"
+      d := { d with down := true }
+      if impl ≠ "ok" then r := r.mismatch s.idx l.idx "ok" impl
+    | some .up =>
+      r := { r with ops := r.ops + 1 }
+      r := r.addCover "up"
+      d := { d with down := false }
+      if impl ≠ "ok" then r := r.mismatch s.idx l.idx "ok" impl
+    | some (.race js) =>
+      r := { r with ops := r.ops + 1 }
+      match l.obs with
+      | wt :: dump =>
+        if wt = "err" ∧ d.down then
+          let (r', d') := checkOps c r d (js.map fun j => (Op.acquire j, none)) dump (fun _ => "err")
+          r := r'; d := d'
+          r := r.addCover "race-while-down"
+        else
+        match parseWon n wt with
+        | none => r := r.mismatch s.idx l.idx "won=…" impl
+        | some ws =>
+          let ws := ws.filter js.contains
+          let losers := js.filter fun j => !ws.contains j
+          let order := (ws.map fun j => (Op.acquire j, some true)) ++ (losers.map fun j => (Op.acquire j, some false))
+          r := r.addCover s!"race-{js.length}"
+          r := r.addCover (if ws.length = 0 then "race-no-winner" else if ws.length = 1 then "race-one-winner" else "race-several-winners(keys)")
+          -- the model's answer: winners among `order` when the scripts run in this order
+          let head := fun (m : List Bool) => wonTok ((order.zip m).filterMap fun ((op, _), b) =>
+            match op with
+            | .acquire j => if b then some j else none
+            | _ => none)
+          let (r', d') := checkOps c r d order dump head
+          r := r'; d := d'
+      | [] => r := r.mismatch s.idx l.idx "won=…" impl
     | some (.op op) =>
       r := { r with ops := r.ops + 1 }
-      for b in branchOf cfg d.st d.won op do r := r.addCover b
-      let (st', mres) := step cfg d.st op
-      let (sp', _) := Spec.step cfg d.sp op
-      let impl := joinSp l.obs
-      let model := joinSp [resTok op mres, modelDump st' keys]
-      let mut st' := st'
-      let mut sp' := sp'
-      -- monitor: result, then resulting store, against the spec
       match l.obs with
-      | [] =>
-        r := r.mismatch s.idx l.idx model impl
-        d := { d with st := st', sp := sp' }
+      | [] => r := r.mismatch s.idx l.idx "<result> <store>" impl
       | res :: dump =>
-        let pd := parseDump dump
-        if model ≠ impl then
-          r := r.mismatch s.idx l.idx model impl
-          match pd with
-          | some pd => st' := { st' with store := resyncStore st'.store.now pd }
-          | none => pure ()
-        let implB : Option Bool :=
-          match res with
-          | "true" => some true | "false" => some false | "ok" => some true | _ => none
-        match implB with
-        | none => r := r.addCover s!"result-{res}"
-        | some b =>
-          let mut bad := false
-          match Spec.explain cfg d.sp op b with
-          | some msg =>
-            r := r.violation s.idx l.idx s!"{msg} op=[{joinSp l.op}] impl=[{impl}]"
-            bad := true
+        let isCall : Bool := match op with
+          | .acquire _ => true
+          | .release _ => true
+          | _ => false
+        if d.down && isCall then
+          -- the round trip fails: AcquireCtx / ReleaseCtx return (false, err); nothing reaches the store
+          let (r', d') := checkOps c r d [(op, none)] dump (fun _ => "err")
+          r := r'; d := d'
+        else
+          let implB : Option Bool :=
+            match res with
+            | "true" => some true
+            | "false" => some false
+            | "ok" => some true
+            | _ => none
+          match implB with
           | none =>
-            let want := specDump sp' keys
-            if want ≠ joinSp dump then
-              let what :=
-                match op with
-                | .acquire _ => if b then "lease after a successful Acquire is not seconds*1000+500 ms for this holder"
-                                else "a refused Acquire changed the lock"
-                | .release _ => if b then "Release by the holder did not free exactly its key"
-                                else "a Release that reported false changed the lock (late or foreign release must be harmless)"
-                | .ft _ => "lease did not run down with the clock"
-                | .setExpire _ _ => "SetExpire touched the store"
-              r := r.violation s.idx l.idx s!"{what}: spec=[{want}] impl=[{joinSp dump}] op=[{joinSp l.op}]"
-              bad := true
-          if bad then
-            match pd with
-            | some pd => sp' := resyncSpec sp' pd
-            | none => pure ()
-        let won := match op with
-          | .acquire i => if mres ∧ !d.won.contains i then i :: d.won else d.won
-          | _ => d.won
-        d := { st := st', sp := sp', won := won }
+            r := r.addCover s!"result-{res}"
+            r := r.mismatch s.idx l.idx "<true|false|ok>" impl
+          | some b =>
+            let (r', d') := checkOps c r d [(op, some b)] dump (fun m => resTok op (m.headD true))
+            r := r'; d := d'
   return r
 
 def driver (secs : List Section) : Report := secs.foldl runSection {}
